@@ -24,6 +24,9 @@ func (r *router) loadRule(cfg *RuleConfig) (*rule, error) {
 		ru.reverse = cfg.Reverse
 	}
 
+	if cfg.Reject > 0xF { // The rcode field of a dns header has only 4 bits.
+		return nil, fmt.Errorf("invalid reject rcode %d", cfg.Reject)
+	}
 	ru.reject = cfg.Reject
 
 	if len(cfg.Forward) > 0 {
